@@ -71,7 +71,7 @@ SPEC = dict(
         "waits for ever: not a block fault, outside the property's wording, reported to the coordinator",
         "a failed or short QIODevice::write ends the receiving job with FileAccessError (repo commit 675e9c1); counter and hash only "
         "see complete blocks; the model keeps device content (acc) and hash input (fed) apart and the theorems are about acc. "
-        "accept(filePath): the job owns, flushes and closes the file (repo commit 38165f0) - oracle only",
+        "accept(filePath): the job owns, flushes and closes the file (repo commit 38165f0) - the flush/close timing and write errors inside the QFile buffer are checked by the oracle only",
         "two open recorded findings: no hash announced -> altered block accepted; neither size nor hash announced -> truncated "
         "stream accepted. Both are 'nothing to verify against' (XEP-0096 makes the hash optional; an in-band <close/> is the only "
         "end marker and qxmpp itself omits size for empty/unknown-length sources), so they are recorded, not fixed. Fixed in the "
@@ -85,7 +85,9 @@ SPEC = dict(
     ],
     level_text="Theorems for every file, block size, receiver device and channel history: success implies the device holds identical "
                "bytes (with the hash announced: every device, against any channel incl. forgeries; without hash: by sequence numbers + size "
-               "against any non-altering channel, up to 65536 blocks); the honest run succeeds for EVERY size and block size; a single "
+               "against any non-altering channel, up to 65536 blocks); the honest run succeeds for EVERY size and every NEGOTIATED block size (hypothesis 0 < bsS <= bsR; a larger sender block is "
+               "answered <resource-constraint/>, the sender does not retry and ends with ProtocolError, the receiver with FileCorruptError: "
+               "refused_block_size_fails_on_both_sides); a single "
                "lost/reordered/mislabelled/truncated block is never reported as success (up to 65536 blocks, any continuation) AND, "
                "with the honest remainder delivered and the inactivity interval elapsed, BOTH jobs are finished, nothing is pending and "
                "the receiver's error is FileCorruptError or ProtocolError (single_fault_ends_in_error, FULL: any size); an altered "
@@ -96,7 +98,8 @@ SPEC = dict(
                "library (kept as passing corpus entries), two recorded.",
     level_note="Proved about the hand-written model; model-to-code tie is differential (exhaustive to depth 3/4 on a small file, all "
                "single faults at all positions for 6 sizes x 3-4 block sizes, sampled beyond). SOCKS5 sending side: outcome table over 6 "
-               "driven scenarios (partial); accept(filePath): oracle only (partial).",
+               "driven scenarios (partial); accept(filePath): previous file content and open mode are modelled "
+               "(accept_path_success_implies_file_is_sent_bytes, pathrun lines); short writes / full disk on that path are oracle only.",
     design_ref="5.19",
     technique="Lean 4 invariant proofs over channel-op lists + model/implementation correspondence on two in-process clients",
 )
